@@ -20,6 +20,8 @@ TNext ==
        [] e.k = "rpeerdown" -> e.ok = TRUE /\ UNCHANGED vars
        [] e.k = "rrebind" -> e.ok = TRUE /\ UNCHANGED vars
        [] e.k = "rreconnect" -> e.ok = TRUE /\ UNCHANGED vars
+       \* a Dial that was waiting for the endpoint when it closed comes back, promptly
+       [] e.k = "rdialret" -> e.prompt = TRUE /\ e.r # "hung" /\ UNCHANGED vars
        [] e.k = "rhsdrop" -> e.closed = TRUE /\ UNCHANGED vars
        [] e.k = "rcensus" -> e.n = 0 /\ UNCHANGED vars
        [] OTHER -> FALSE
